@@ -78,10 +78,10 @@ HIST_STARTS = {          # id -> (constructor argument, counts written by hand)
     "Ca(OH)2:str": ("Ca(OH)2", {"Ca": 1, "O": 2, "H": 2}),
 }
 HIST_OTHERS = {          # right operands of '+': formula -> counts in component order
-    "CO": [["C", 1], ["O", 1]], "H2O": [["H", 2], ["O", 1]], "N2": [["N", 2]],
+    "CO": [["C", 1], ["O", 1]], "OH2": [["O", 1], ["H", 2]], "N2": [["N", 2]],
 }
 HIST_OPS = [["add", "O", 2], ["add", "C", 1], ["add", "N", 1],
-            ["plus", "CO"], ["plus", "H2O"], ["plus", "N2"], ["mul", 2], ["mul", 0.5]]
+            ["plus", "CO"], ["plus", "OH2"], ["plus", "N2"], ["mul", 2], ["mul", 0.5]]
 HDEPTH = dict(quick=2, thorough=3)
 
 
